@@ -63,7 +63,7 @@ def filter_case(ctx, rng, idx):
 
     kind = "HDTM"[(idx // 3) % 4]
     cfg = history.Cfg(rng, kind)
-    cfg.invalid_rate = 0
+    cfg.invalid_rate = 0.1  # refused calls are part of the build: they must leave no trace in what is measured
     cfg.avoid = {"copy", "clear"}
     cfg.n_ops = rng.randint(5, 25)
     try:
